@@ -28,6 +28,7 @@ MODELLED = {"CheckTernary": "check_ternary", "CheckLineLen": "check_line_len", "
             "CheckManyInstructions": "check_many_instructions", "CheckEmptyLine": "check_empty_line",
             "CheckLineIndent": "check_line_indent", "CheckSpacing": "check_spacing"}
 CHECK_IDS = sorted(MODELLED)
+EXN = {k: k for k in ("AttributeError", "IndexError", "TypeError", "KeyError", "UnboundLocalError", "RecursionError", "AssertionError")}
 
 
 # ------------------------------------------------------------------------------------------------ probe (worker side)
@@ -173,18 +174,21 @@ def coq_cases_text(cases, types, rules, codes):
     ti = {t: i for i, t in enumerate(types)}
     ri = {t: i for i, t in enumerate(rules)}
     ci = {t: i for i, t in enumerate(codes)}
+    # the outcome is compared with its exception class: a Crash of the model must carry the exception the implementation raised
+    o.append("Definition agrees_x (r : result) (oc : Z) (ex : exn) (E : list em) (ia va : bool) : bool :=\n"
+             "  match r with Crash e => (oc =? 2) && exn_eqb e ex | _ => agrees r oc E ia va end.\n")
     o.append("Definition one (id : Z) (toks : list token) (cut : bool) (hist : list str) (ck : nat) (scope : Z) (sname : str) (glob : bool) (indent : Z)\n"
-             "  (ia va : bool) (oc : Z) (E : list em) (ia2 va2 : bool) : list Z :=\n"
+             "  (ia va : bool) (oc : Z) (ex : exn) (E : list em) (ia2 va2 : bool) : list Z :=\n"
              "  let v := mkview hist sname glob indent ia va in\n"
-             "  if agrees (run_check ck toks scope v) oc E ia2 va2 then [] else [id].\n")
+             "  if agrees_x (run_check ck toks scope v) oc ex E ia2 va2 then [] else [id].\n")
     o.append("Definition results : list Z := List.concat [\n")
     lines = []
     b = lambda x: "true" if x else "false"  # noqa
     for cid, r in enumerate(cases):
-        lines.append(" one %d [%s] %s [%s] %d (%d) (s \"%s\") %s (%d) %s %s %d [%s] %s %s" % (
+        lines.append(" one %d [%s] %s [%s] %d (%d) (s \"%s\") %s (%d) %s %s %d %s [%s] %s %s" % (
             cid, "; ".join("T %d %d %d" % (ti[t], l, c) for t, l, c in r["win"]), b(r["cut"]),
             "; ".join("R %d" % ri[h] for h in r["hist"]), CHECK_IDS.index(r["check"]), r["scope"], r["sname"], b(r["glob"]),
-            r["indent"], b(r["ia"]), b(r["va"]), r["oc"], "; ".join("C %d %d %d" % (ci[c], l, k) for c, l, k in r["em"]),
+            r["indent"], b(r["ia"]), b(r["va"]), r["oc"], EXN.get(r.get("exc"), "Unmodelled"), "; ".join("C %d %d %d" % (ci[c], l, k) for c, l, k in r["em"]),
             b(r["ia2"]), b(r["va2"])))
     o.append(";\n".join(lines) + "].\nEval vm_compute in results.\n")
     return "".join(o)
